@@ -23,7 +23,8 @@ EXPLANATION = (
 BOUNDS = {'quick': '1-3 coefficients, targets .npy / .npz (key None or given, compress on/off, overwrite on/off, prior archive absent / present with other keys) / raw binary, 1-2 successive saves',
           'thorough': 'same with up to 5 coefficients and float32 statistics written by a foreign tool'}
 OUTSIDE = ['the real file formats (NumPy/zip) themselves', 'Kaldi table targets', 'count is a concrete positive integer (7); sums are symbolic']
-ASSUMPTIONS = ['np.load of a missing file raises an IOError subclass; np.load of .npz returns a read-only NpzFile (item assignment is a TypeError)',
+ASSUMPTIONS = ['statistics come from real data: n * sum x^2 >= (sum x)^2 (violations of it by floating-point rounding are outside the claim)',
+               'np.load of a missing file raises an IOError subclass; np.load of .npz returns a read-only NpzFile (item assignment is a TypeError)',
                'np.fromfile(dtype) of a file written by tofile with the same dtype returns the flattened values; with another float dtype it returns unrelated values',
                'polarity of overwrite (True merges / False discards) is reported as a note: the property only requires that the flag decides']
 CONFIG_TIME_LIMIT = {'quick': 600, 'thorough': 1800}
@@ -230,7 +231,8 @@ def run_roundtrip(cfg):
         st = S()
         st._stats = mk_stats(F)
         for j in range(F):
-            c.assume(z3.Real('s_sq_%d' % j) >= 0)
+            # statistics of real data: sum of squares >= 0 and (Cauchy-Schwarz) n * sum x^2 >= (sum x)^2; sums of either sign
+            c.assume(z3.Real('s_sq_%d' % j) >= 0, 7 * z3.Real('s_sq_%d' % j) >= z3.Real('s_sum_%d' % j) * z3.Real('s_sum_%d' % j))
         skw = {}
         lkw = {}
         if kind == 'npz':
@@ -258,6 +260,10 @@ def run_roundtrip(cfg):
             cand = [k for k in keys if not _eq_stats(stored[k], st._stats)]
             if not cand:
                 return ('saved statistics not found in the archive', str(keys))
+            had_arr0 = cfg['prior'] == 'same' or nsaves == 2
+            if 'arr_0' not in cand and not had_arr0:
+                # nothing occupied arr_0 before: a key-less save must be found by a key-less load
+                return ('key-less save not stored under arr_0', str(keys))
             if cand[-1] != 'arr_0':
                 lkw = dict(key=cand[-1])
         try:
@@ -396,6 +402,9 @@ def replay(w):
                 ks = [k for k in z.files if k.startswith('arr_') and np.array_equal(z[k], st._stats)]
             if not ks:
                 return {'reproduced': True, 'detail': 'saved statistics not found in the archive'}
+            had_arr0 = w['prior'] == 'same' or w.get('save_twice')
+            if 'arr_0' not in ks and not had_arr0:
+                return {'reproduced': True, 'detail': 'key-less save into an archive without arr_0 stored the statistics under %s: a key-less reload cannot find them' % ks}
             if ks[-1] != 'arr_0':
                 lkw = dict(key=ks[-1])
         try:
